@@ -5,7 +5,7 @@ from ..absint import INF, analyse
 from ..bytecount import ByteCount
 from ..cfg import Renderer, walk, show, flat_guards, branches, guards_of
 from ..facts import callee_names, short
-from ..util import view, root_name, expr_calls, expr_fields, expr_vars, loops
+from ..util import view, root_name, expr_calls, expr_fields, expr_vars, loops, deep_calls, var_def_expr
 
 EXPLANATION = (
     "Static rules over packet/src/bgp.rs and the NLRI encoders. R04.1 every loop that appends NLRI entries to an UPDATE "
@@ -61,7 +61,7 @@ def decode_table(prog):
     for bi, t in fv.calls(re.compile(r"rustybgp_packet::.*::decode$")):
         ty = prog.name(t["f"].get("rkey") or t["f"]["key"]) if (t["f"].get("rkey") or t["f"].get("key")) in prog.ix else t["f"]["name"]
         ty = ty[:-len("::decode")]
-        for g, labels, how in flat_guards(fv, bi, brs):
+        for g, labels, how in flat_guards(fv, bi, brs, named=True):
             if g[0] == "field" and "family" in expr_vars(g) and all(str(x).isdigit() for x in labels):
                 for x in labels:
                     out[int(x)] = ty
@@ -110,7 +110,7 @@ def check_fit(prog, r, bc, table):
             r.analysed(fv.name)
             line = fv.line(bi)
             # which length section is this?  tag by the enclosing guards (traditional reach / withdrawn / mp)
-            gs = flat_guards(fv, bi, brs)
+            gs = flat_guards(fv, bi, brs, named=True)
             tag = fn + ":" + _site_tag(fv, bi, gs)
             if not any(bi in body for h, body, backs in lps):
                 r.unanalysable("%s: Nlri::encode call at line %d is not inside a loop" % (short(fv.name), line), fv.loc(bi))
@@ -132,7 +132,7 @@ def check_fit(prog, r, bc, table):
             for g, labels, how in gs:
                 if g[0] == "bin" and g[1] in ("Gt", "Ge", "Lt", "Le") and labels <= {"true", "false"}:
                     a, b = g[2], g[3]
-                    ca, cb = expr_calls(a), expr_calls(b)
+                    ca, cb = deep_calls(fv, a, at=bi), deep_calls(fv, b, at=bi)
                     lim_a = any(c.endswith("max_message_length") for c in ca)
                     lim_b = any(c.endswith("max_message_length") for c in cb)
                     if lim_a == lim_b:
@@ -237,11 +237,11 @@ def _check_scratch(prog, r, fv, it, brs, bi, tag, local, lps, bc=None, key=None)
         return
     for b2 in appends:
         ok = False
-        for g, labels, how in flat_guards(fv, b2, brs):
+        for g, labels, how in flat_guards(fv, b2, brs, named=True):
             if g[0] == "bin" and g[1] in ("Gt", "Ge", "Lt", "Le") and labels <= {"true", "false"}:
                 a, b = g[2], g[3]
-                lim_a = any(c.endswith("max_message_length") for c in expr_calls(a))
-                lim_b = any(c.endswith("max_message_length") for c in expr_calls(b))
+                lim_a = any(c.endswith("max_message_length") for c in deep_calls(fv, a, at=b2))
+                lim_b = any(c.endswith("max_message_length") for c in deep_calls(fv, b, at=b2))
                 if lim_a == lim_b:
                     continue
                 op = g[1]
@@ -262,7 +262,7 @@ def _check_scratch(prog, r, fv, it, brs, bi, tag, local, lps, bc=None, key=None)
             inner = [body for h, body, backs in lps if b2 in body]
             body = min(inner, key=len) if inner else set()
             # the branch block of the fit test
-            fit_blocks = {br.bi for br, labels in guards_of(fv, b2, brs) if br.expr[0] == "bin" and any(c.endswith("max_message_length") for c in expr_calls(br.expr))}
+            fit_blocks = {br.bi for br, labels in guards_of(fv, b2, brs) if br.expr[0] == "bin" and any(c.endswith("max_message_length") for c in deep_calls(fv, br.expr, at=b2))}
             for b3 in sorted(body):
                 if b3 == b2 or not w.get(b3):
                     continue
@@ -351,7 +351,7 @@ def _reservation_defs(fv, it, name, brs, site=None):
             lo, hi = st.z.lo(t), st.z.hi(t)
             if lo == -INF or hi == INF:
                 continue
-            only, excluded = _family_tests(flat_guards(fv, bi, brs))
+            only, excluded = _family_tests(flat_guards(fv, bi, brs, named=True))
             fg = None
             if only and len(only) == 1:
                 fg = (next(iter(only)), True)
